@@ -6,10 +6,18 @@
    C15 notifications); the order of calls in close(), the four worker loops, the hand-over points and
    the constructor / setDefaultLogContainerSize are decidable facts about statement skeletons
    regenerated from File.cpp (C06_code_shape).
+   C06_close_under_inflating_worker: the one place where a worker runs a loop of its own between two synchronisation
+   points — the signature search of ObjectHeaderBase::read, on the compressed std::fstream — ends for every file content
+   and wherever File::close() (which closes that fstream BEFORE it joins the worker) takes effect: Sem.s_open counts the
+   worker's operations on the stream down to the close; on a closed fstream a read sets eofbit|failbit, a seek failbit only.
+   The pipeline models take each worker step between two synchronisation points as finite; this theorem discharges that
+   for the inflating worker (C10_parser_terminates does for the parser).
    PARTIAL: progress needs weak fairness of the OS scheduler; condition variables are modelled with
    monitor semantics; thread spawn/join and the C++ memory model are outside the model. *)
 From Coq Require Import String List Bool ZArith Lia.
 From VB Require Import WPipe RPipe PipeSkel FileSkel SkelEq.
+From VB Require Import Base IR Sem FileModel FileDefs TermFacts TermEq CloseEq.
+From VB Require Import Consts.
 Import ListNotations.
 Local Open Scope Z_scope.
 
@@ -57,3 +65,33 @@ Proof.
   repeat split; auto using close_read_order, close_write_order_ok, w2_write_step.
 Qed.
 Print Assumptions C06_code_shape.
+
+(* close() in the middle of a read session, the inflating worker anywhere in compressedFile2UncompressedFile: for EVERY file
+   content, every allocation cap, whatever zlib answers and EVERY number k of stream operations the worker still completes
+   before the close takes effect, both stages of the session end (so the joins in close() return) *)
+Theorem C06_close_under_inflating_worker : forall (inflate : list Z -> Z -> option (list Z)) cap (bytes : list Z) (k : nat),
+  r_cend (f_read_session_closing inflate cap bytes k) <> EndFuel /\ r_oend (f_read_session_closing inflate cap bytes k) <> EndFuel.
+Proof. exact read_session_closing_terminates. Qed.
+Print Assumptions C06_close_under_inflating_worker.
+
+(* what it rests on, as a fact about the term regenerated from ObjectHeaderBase.cpp: the search gives up on ANY failed stream *)
+Theorem C06_search_stops_on_failed_stream : sp_stop_on_fail scan_p = true.
+Proof. exact scan_stops_on_failed_stream. Qed.
+Print Assumptions C06_search_stops_on_failed_stream.
+
+(* the statement is false of the search as it was (giving up at end of file only; repaired by repo fix b825602): on a stream that
+   has failed without reaching its end — what a seek on the closed file leaves — it spins, for every fuel; on a concrete
+   three-object file the session hangs exactly when the close falls just before the seek back to a container's start *)
+Theorem C06_old_search_refuted :
+  (forall n i, s_sticky i = true -> s_good i = false -> s_eof i = false -> scan_loop scan_p_old n 0 i = Err ESpin) /\
+  filter (fun k => is_fuel (r_cend (f_read_session_closing_old no_zlib default_cap ex_file k))) (seq 0 60) = [20; 38]%nat.
+Proof. split; [exact old_search_spins|exact close_old_search_hangs]. Qed.
+Print Assumptions C06_old_search_refuted.
+
+(* non-vacuity: a concrete file; the session ends for each of the first 60 close points; a late close lets all objects through *)
+Example C06_close_example :
+  zlen ex_file = 352 /\
+  forallb (fun k => negb (is_fuel (r_cend (f_read_session_closing no_zlib default_cap ex_file k)))) (seq 0 60) = true /\
+  length (r_objs (f_read_session_closing no_zlib default_cap ex_file 20)) = 0%nat /\
+  length (r_objs (f_read_session_closing no_zlib default_cap ex_file 55)) = 3%nat.
+Proof. exact close_example. Qed.
